@@ -8,6 +8,7 @@ import PqlModel.Props.C01Templates
 import PqlModel.Props.C02EndToEnd
 import PqlModel.Props.C05Parsed
 import PqlModel.Props.C02EndToEndSource
+import PqlModel.Props.C05NoPlaceholder
 #print axioms Pql.C01.C01_parens_write
 #print axioms Pql.C01.C01_parens_wrap
 #print axioms Pql.C01.C01_unparen_write
